@@ -1238,6 +1238,32 @@ func modeFlags(seed uint64, n int, out *sx.Out) {
 			pos := r.Intn(len(items) + 1)
 			items = append(items[:pos], append([]fitem{{flag: "--"}}, items[pos:]...)...)
 		}
+		// every run begins with the repeated-flag and empty-value lines that random draws reach only now and then
+		scripted := [][]fitem{
+			{{flag: "w", value: ""}, {flag: "w", value: "/etc/passwd"}, {flag: "p", value: "wa"}, {flag: "k", value: "identity"}},
+			{{flag: "w", value: "/etc/passwd"}, {flag: "w", value: ""}, {flag: "p", value: "wa"}},
+			{{flag: "w", value: "", form: 1}, {flag: "w", value: "/etc/shadow", form: 1}},
+			{{flag: "w", value: "/a"}, {flag: "w", value: "/b"}},
+			{{flag: "w", value: "/a"}, {flag: "p", value: "r"}, {flag: "p", value: "wa"}},
+			{{flag: "w", value: "/a"}, {flag: "p", value: ""}, {flag: "p", value: "x"}},
+			{{flag: "a", value: ""}, {flag: "a", value: "always,exit"}, {flag: "S", value: "open"}},
+			{{flag: "a", value: "always,exit"}, {flag: "a", value: "never,exit"}},
+			{{flag: "a", value: "always,exit"}, {flag: "A", value: "always,exit"}},
+			{{flag: "a", value: "always,exit"}, {flag: "S", value: ""}, {flag: "S", value: "open"}},
+			{{flag: "a", value: "always,exit"}, {flag: "k", value: ""}, {flag: "k", value: "a"}, {flag: "k", value: ""}},
+			{{flag: "a", value: "always,exit"}, {flag: "k", value: "Mixed-Case"}, {flag: "k", value: "two words"}, {flag: "S", value: "open close"}},
+			{{flag: "D"}, {flag: "D"}},
+			{{flag: "D"}, {flag: "k", value: "x"}},
+			{{flag: "D"}, {flag: "w", value: "/a"}},
+			{{flag: "a", value: "always,exit"}, {flag: "w", value: "/a"}},
+			{{flag: "a", value: "always,exit"}, {flag: "p", value: "r"}},
+			{{flag: "w", value: "/a"}, {flag: "S", value: "open"}},
+			{{flag: "w", value: "/a"}, {flag: "F", value: "uid=0"}},
+			{{flag: "w", value: "/a"}, {flag: "C", value: "uid=euid"}},
+		}
+		if i < len(scripted) {
+			items = scripted[i]
+		}
 		var toks []string
 		var ic []string
 		for _, it := range items {
